@@ -101,6 +101,7 @@ def main(argv=None):
     mod = importlib.import_module("harness.props.%s" % prop.lower())
     meta = load_meta(prop)
     ctx = Ctx(prop, args.tier, seed)
+    ctx.lean = core.Lean(meta.get("driver", "drivers/Topo.lean"))
 
     if args.replay:
         rec = json.load(open(args.replay))
@@ -122,7 +123,7 @@ def main(argv=None):
             proof["log"] = "gen_tables failed: %r" % (e,)
         # 2. build the model, the drivers and this property's theorems
         if proof["built"]:
-            b = core.lake_build(list(meta["modules"]) + ["MofunModel.Drive.All"])
+            b = core.lake_build(list(meta["modules"]) + list(meta.get("driver_modules", [])))
             proof["built"] = b.ok
             proof["failed_modules"] = b.failed
             proof["log"] = b.log[-3000:] if not b.ok else ""
